@@ -91,6 +91,10 @@ async def infinite_watch(
                     # If it has escalated after all the retries, go back to trying anyway.
                     # This stream is not allowed to fail, unlike other regular requests.
                     pass
+                except errors.APINotFoundError:
+                    # The resource kind (CRD) or the namespace has just been removed from the cluster.
+                    # This stream is to be stopped by the orchestrator soon; or they are back soon.
+                    pass
             await asyncio.sleep(settings.watching.reconnect_backoff)
     finally:
         logger.debug(f"Stopping the watch-stream for {resource} {where}.")
